@@ -190,7 +190,7 @@ step = st.fixed_dictionaries(
 
 class History(Facet):
     name = "history"
-    examples = {"quick": 6000, "thorough": 150000}
+    examples = {"quick": 6000, "thorough": 450000}
     shards = {"quick": 8, "thorough": 16}
 
     def strategy(self, tier):
